@@ -43,6 +43,24 @@ fn go_num<N: FromLabel + NumericOps>(pool: bool, op: &str, args: &[Arg]) -> Opti
     }
 }
 
+fn go_join<T: Lab>(op: &str, args: &[Arg]) -> Option<String> {
+    if let ("append", [Arg::A(s1, e1), Arg::A(s2, e2), ax]) = (op, args) {
+        return Some(res_arr(&mk::<T>(s1, e1)?.append(&mk::<T>(s2, e2)?, opt_usize(ax)?)));
+    }
+    let l = match args.first() { Some(Arg::As(l)) => l, _ => return None };
+    let arrs = l.iter().map(|(s, e)| mk::<T>(s, e)).collect::<Option<Vec<_>>>()?;
+    Some(match (op, &args[1..]) {
+        ("concatenate", [ax]) => res_arr(&Array::concatenate(arrs, opt_usize(ax)?)),
+        ("stack", [ax]) => res_arr(&Array::stack(arrs, opt_usize(ax)?)),
+        ("vstack", []) => res_arr(&Array::vstack(arrs)),
+        ("row_stack", []) => res_arr(&Array::row_stack(arrs)),
+        ("hstack" | "hstack_pinned", []) => res_arr(&Array::hstack(arrs)),
+        ("dstack", []) => res_arr(&Array::dstack(arrs)),
+        ("column_stack", []) => res_arr(&Array::column_stack(arrs)),
+        _ => return None,
+    })
+}
+
 fn sort_kind(k: i128) -> SortKind {
     match k { 1 => SortKind::Mergesort, 2 => SortKind::Heapsort, 3 => SortKind::Stable, _ => SortKind::Quicksort }
 }
@@ -79,6 +97,8 @@ pub fn dispatch(op: &str, ty: &str, args: &[Arg]) -> Option<String> {
         },
         "array_split" | "split" | "split_axis" | "hsplit" | "vsplit" | "dsplit" | "sort" | "argsort" | "unique" =>
             Some(with_lab_type!(ty, T, match go_split::<T>(op, args) { Some(s) => s, None => "bad:input".to_string() })),
+        "append" | "concatenate" | "stack" | "vstack" | "row_stack" | "hstack" | "hstack_pinned" | "dstack" | "column_stack" =>
+            Some(with_lab_type!(ty, T, match go_join::<T>(op, args) { Some(s) => s, None => "bad:input".to_string() })),
         _ => return None,
     };
     Some(r.unwrap_or_else(|| "bad:input".to_string()))
